@@ -112,6 +112,8 @@ def mutations(ep, adesc, outcome, args, salt):
         if outcome == "nontext":
             pre = "Bearer " if kind == "auth" else "sid="
             return [{"op": "set_header", "name": hname, "bytes": list((pre + tok).encode()) + [0xff]}], None
+        if outcome == "nodelim":
+            return [{"op": "set_header", "name": hname, "value": [tok, ("Bearer" if kind == "auth" else "sid") + tok, tok + tok][salt % 3]}], None
         if outcome == "badprefix":
             return [{"op": "set_header", "name": hname, "value": ("Basic " if kind == "auth" else "other=") + tok}], None
         return [{"op": "set_header", "name": hname, "value": ("Bearer " if kind == "auth" else "sid=") + tok + " b@d"}], None
